@@ -178,7 +178,8 @@ def eq_fields(ctx):
             ctx.ok(c, st, compared=False, determined_by_compared_fields=True)
 
 
-@rule("C14.algebra-check", props=["C14"], min_instances=8, mutants=[
+@rule("C14.algebra-check", props=["C14"], min_instances=16, mutants=[
+    ("registered functions vet their operands only when they compile", ("operator_dict", "        if any((mvs[0].algebra != mv.algebra) for mv in mvs[1:]):\n            raise AlgebraError(\"Cannot multiply elements of different algebra's.\")\n\n        keys_in = tuple(mv.keys() for mv in mvs)\n        values_in = tuple(mv.values() for mv in mvs)\n        keys_out, func = self[keys_in]\n\n        if not mvs[0].algebra.wrapper:", "        keys_in = tuple(mv.keys() for mv in mvs)\n        if keys_in not in self and any((mvs[0].algebra != mv.algebra) for mv in mvs[1:]):\n            raise AlgebraError(\"Cannot multiply elements of different algebra's.\")\n\n        values_in = tuple(mv.values() for mv in mvs)\n        keys_out, func = self[keys_in]\n\n        if not mvs[0].algebra.wrapper:")),
     ("binary check compares the metric only", ("operator_dict", "        if not (mv1.algebra is mv2.algebra or mv1.algebra == mv2.algebra):", "        if not (mv1.algebra is mv2.algebra or tuple(mv1.algebra.signature) == tuple(mv2.algebra.signature)):")),
     ("binary check compares the dimension only", ("operator_dict", "        if not (mv1.algebra is mv2.algebra or mv1.algebra == mv2.algebra):", "        if not (mv1.algebra is mv2.algebra or len(mv1.algebra) == len(mv2.algebra)):")),
     ("binary check dropped", ("operator_dict", "        if not (mv1.algebra is mv2.algebra or mv1.algebra == mv2.algebra):\n            raise AlgebraError", "        if False:\n            raise AlgebraError")),
@@ -192,10 +193,10 @@ def algebra_check(ctx):
         if n < 2:
             continue
         fn = ctx.func(q)
-        for foreign_at, fkind in [(i, k) for i in range(1, n) for k in ("basis", "signature-order")]:
-            c = f"{q}#foreign@{foreign_at}:{fkind}"
+        for foreign_at, fkind, cached in [(i, k, c_) for i in range(1, n) for k in ("basis", "signature-order") for c_ in (False, True)]:
+            c = f"{q}#foreign@{foreign_at}:{fkind}" + (",pattern already compiled" if cached else "")
             try:
-                log = run_entry(repo, q, Scenario((), False, True, n, foreign_at=foreign_at, foreign_kind=fkind))
+                log = run_entry(repo, q, Scenario((), False, True, n, foreign_at=foreign_at, foreign_kind=fkind, cached=cached))
             except NoValue as exc:
                 raise Unknown(c, str(exc), fn)
             if log["out"] == ("raise", "AlgebraError") and not log["lookups"]:
